@@ -120,6 +120,10 @@ def run(tier):
         raise ToolError("Trace_SpecClassify did not consume its input (line %s)" % rej)
     for b in sorted({int(m.group(1)) - 1 for m in _re.finditer(r'<<"BAD", (\d+)>>', rc_.out)}):
         x = crow[b]
+        if x["name"] == "Bound":
+            v.violation("speculative execution with at most %s speculative executions every %s units, each execution taking 5 units and succeeding: %s executions were started, the call returned %s at t=%s" % (
+                x["max"], x["iv"], x["started"], x["result"], x["t"]), [x])
+            continue
         v.violation("speculative execution: an execution failing with %s at t=1 while another succeeds at t=5: the call returned %s at t=%s" % (x["name"], x["result"], x["t"]), [x])
     v.add(classified_failures=len(crow))
     # ---- end to end: mock nodes that answer late; frames in flight at the cluster (a real Session per scenario)
